@@ -66,6 +66,7 @@ fn main() {
     };
     if let Some(path) = replay {
         let ctx = CheckCtx::new(&prop, tier, seed, true);
+        vh::driver::CONFIRMING.store(true, std::sync::atomic::Ordering::Relaxed);
         match load_replay(&path).and_then(|(sub, case)| (entry.replay)(&ctx, &sub, case)) {
             Ok(Some(v)) => {
                 println!("violation detail: rule={} sig={} :: {}", v.rule, v.sig, v.detail);
